@@ -464,6 +464,20 @@ def run_c07(rep, tier):
         if o['outcome']['status'] != 'ok':
             rep.violation({'kind': 'seq', 'module': 'props_seq', 'call': o['_call'], 'failing_clauses': ['sequence_mode_first_applicable'], 'observed': o['outcome']},
                           f"{engine.brief_call(o['_call'])} was refused: {o['outcome'].get('exc')}: {o['outcome'].get('msg', '')[:80]}")
+    # a requested mode that cannot represent the whole message is refused for sequences, too - however the message is cut into chunks
+    # (a stray single byte after double-byte text, a letter after digits, lower case after upper case)
+    bad_calls = []
+    for content, mode in (('\u6f22\u5b57A', 'kanji'), ('\u6f22\u5b57\u6f22\u5b57 ', 'kanji'), ('\u4e66\u8bfbA', 'hanzi'), ('\u4e66\u8bfb\u4e66\u8bfb1', 'hanzi'), ('1234567A', 'numeric'),
+                          ('12345678 ', 'numeric'), ('ABCDEFGHa', 'alphanumeric'), ('ABCDEFGH\n', 'alphanumeric'), ('A\u6f22\u5b57', 'kanji')):
+        for kw in ({'symbol_count': 2}, {'symbol_count': 3}, {'version': 1}, {'version': 1, 'symbol_count': 2}, {'version': 10}):
+            bad_calls.append(call('make_sequence', content, mode=mode, **kw))
+    for c in bad_calls:
+        outcome, _r, syms = symobs.execute(c, time_limit=60)
+        rep.keys.add(('SEQBAD', engine.brief_call(c)[:60]))
+        if outcome['status'] == 'ok' or 'ValueError' not in outcome.get('mro', []):
+            rep.violation({'kind': 'seq', 'module': 'props_seq', 'call': c, 'failing_clauses': ['requested_mode_not_applicable_refused'], 'observed': outcome},
+                          f"{engine.brief_call(c)}: the requested mode cannot represent the message; observed {outcome['status']} {outcome.get('exc', '')}")
+    rep.evaluations += len(bad_calls)
     sobs = [o for o in sobs if o['outcome']['status'] == 'ok']
     sv, st = common.validate_observations(rep.pid, 'Trace_Seq', sobs, tag='seqmode', timeout=3000)
     rep.add_trace_stats(st, len(sobs))
